@@ -150,6 +150,13 @@ impl Prop for C01 {
             timeout: Duration::from_secs(600),
             what: "one long token per input: 38 shapes (digit runs, fractions with many zeros, names, strings, operator-character runs, whitespace runs, separators) at every length 1..70 and at 2^k-1, 2^k, 2^k+1".into(),
         });
+        stages.push(Stage {
+            name: "after-odd-registration".into(),
+            len: 8,
+            chunk: 1,
+            timeout: Duration::from_secs(300),
+            what: "fresh process: one register_infix_op call with a precedence outside the documented domain (0, negative, > 10^9, i32 extremes; what that call does is its own business), then every string of <= 2 fragments".into(),
+        });
         let sw = sweeps(tier);
         Plan {
             stages,
@@ -200,6 +207,26 @@ impl Prop for C01 {
             }
             out.count("states", b - a);
             out.count("transitions", b - a);
+            return;
+        }
+        if stage == sw.len() + 3 {
+            use expression_engine::{InfixOpAssociativity, InfixOpType};
+            let precs = [0, -1, -110, i32::MIN, i32::MAX, 1 << 30, 1_000_000_001, 1_073_741_824];
+            let small = Strings::new(FRAGMENTS, 2);
+            for i in a..b {
+                out.at(i);
+                let p = precs[i as usize % precs.len()];
+                let r = engine::guarded(|| {
+                    expression_engine::register_infix_op("zzodd", p, InfixOpType::CALC, InfixOpAssociativity::LEFT, std::sync::Arc::new(|a, _| Ok(a)));
+                    Ok(())
+                });
+                let name = format!("after-odd-registration[precedence {} -> {}]", p, r.class());
+                for k in 0..small.len() {
+                    check_string(&small.get(k), &name, out);
+                }
+                out.nontrivial.insert(hash64(&name));
+            }
+            out.count("states", b - a);
             return;
         }
         if stage == sw.len() + 2 {
@@ -277,6 +304,9 @@ impl Prop for C01 {
         if stage == sw.len() {
             return show(&token_seqs(tier).spaced(i));
         }
+        if stage == sw.len() + 3 {
+            return format!("odd registration {}", i);
+        }
         if stage == sw.len() + 2 {
             return long_token_inputs(tier.pick(14, 17))[i as usize].0.clone();
         }
@@ -287,6 +317,9 @@ impl Prop for C01 {
         let sw = sweeps(tier);
         if stage <= sw.len() {
             return format!("{}:sweep-string", how);
+        }
+        if stage == sw.len() + 3 {
+            return format!("{}:after-odd-registration", how);
         }
         if stage == sw.len() + 2 {
             return format!("{}:long-token:{}", how, long_token_inputs(tier.pick(14, 17))[i as usize].0.split(' ').next().unwrap_or(""));
